@@ -4,6 +4,8 @@ package main
 // both chains after the re-import, and the Coq / JSON emission.
 
 import (
+	"crypto/sha256"
+	"encoding/hex"
 	"fmt"
 	"os"
 	"sort"
@@ -12,7 +14,12 @@ import (
 	"verif/harness/abci"
 	"verif/harness/hx"
 
+	baskettypes "github.com/KiraCore/sekai/x/basket/types"
+	collectivestypes "github.com/KiraCore/sekai/x/collectives/types"
+	custodytypes "github.com/KiraCore/sekai/x/custody/types"
 	govkeeper "github.com/KiraCore/sekai/x/gov/keeper"
+	l2types "github.com/KiraCore/sekai/x/layer2/types"
+	upgradetypes "github.com/KiraCore/sekai/x/upgrade/types"
 	govtypes "github.com/KiraCore/sekai/x/gov/types"
 	mstypes "github.com/KiraCore/sekai/x/multistaking/types"
 	spendingtypes "github.com/KiraCore/sekai/x/spending/types"
@@ -292,6 +299,42 @@ func RunProbes(a, b *abci.Chain, f Features, heightShifted bool) []Probe {
 			return txr(c, 1, &spendingtypes.MsgClaimSpendingPool{Sender: A(c, 1).String(), PoolName: "pool1"})
 		})
 	}
+	// continuation operations of the other modules (same signed transactions on both chains)
+	both("tx:register-identity-record", func(c *abci.Chain) string {
+		r := txr(c, 3, govtypes.NewMsgRegisterIdentityRecords(A(c, 3), []govtypes.IdentityInfoEntry{{Key: "website", Info: "after.example"}}))
+		return fmt.Sprintf("%s last-id=%d", r, c.App.CustomGovKeeper.GetLastIdentityRecordId(ctxOf(c)))
+	})
+	if f.Basket {
+		both("tx:basket-mint", func(c *abci.Chain) string {
+			return txr(c, 2, &baskettypes.MsgBasketTokenMint{Sender: A(c, 2).String(), BasketId: 1, Deposit: sdk.NewCoins(coin("ubtc", 1000), coin("xeth", 1000))})
+		})
+	}
+	if f.Custody {
+		both("tx:custody-approve-second-custodian", func(c *abci.Chain) string {
+			h := sha256.Sum256(nil)
+			return txr(c, 5, custodytypes.NewMsgApproveCustodyTransaction(A(c, 5), A(c, 3), hex.EncodeToString(h[:])))
+		})
+	}
+	if f.Collective && f.Multistaking {
+		both("tx:collective-contribute", func(c *abci.Chain) string {
+			return txr(c, 2, &collectivestypes.MsgBondCollective{Sender: A(c, 2).String(), Name: "coll1", Bonds: sdk.NewCoins(coin("v1/ukex", 100))})
+		})
+	}
+	if f.Layer2 {
+		both("tx:dapp-bond", func(c *abci.Chain) string {
+			return txr(c, 5, &l2types.MsgBondDappProposal{Sender: A(c, 5).String(), DappName: "dapp1", Bond: coin("ukex", 100)})
+		})
+	}
+	if f.Councilor {
+		both("tx:create-poll", func(c *abci.Chain) string {
+			r := txr(c, 0, govtypes.NewMsgPollCreate(A(c, 0), "after", "created after the restart", "ref", "checksum", []string{"x", "y"}, []string{"sudo"}, 3, "string", 1, "600s"))
+			n := 0
+			if ps, err := c.App.CustomGovKeeper.GetPollsByAddress(ctxOf(c), A(c, 0)); err == nil {
+				n = len(ps)
+			}
+			return fmt.Sprintf("%s polls-of-a0=%d", r, n)
+		})
+	}
 	both("block+1:end", func(c *abci.Chain) string {
 		e := c.EndBlock()
 		return fmt.Sprintf("panic=%q updates=%d", e.Panic, len(e.Updates))
@@ -349,6 +392,21 @@ func RunProbes(a, b *abci.Chain, f Features, heightShifted bool) []Probe {
 			return c.App.BankKeeper.GetAllBalances(ctxOf(c), A(c, i)).String()
 		})
 	}
+	both("query:upgrade-plans-and-validator-statuses", func(c *abci.Chain) string {
+		cur, _ := c.App.UpgradeKeeper.GetCurrentPlan(ctxOf(c))
+		nxt, _ := c.App.UpgradeKeeper.GetNextPlan(ctxOf(c))
+		name := func(p *upgradetypes.Plan) string {
+			if p == nil {
+				return "-"
+			}
+			return p.Name
+		}
+		var xs []string
+		for _, v := range c.App.CustomStakingKeeper.GetValidatorSet(ctxOf(c)) {
+			xs = append(xs, fmt.Sprint(int(v.Status)))
+		}
+		return fmt.Sprintf("current=%s next=%s statuses=%s", name(cur), name(nxt), strings.Join(xs, ""))
+	})
 	both("query:data-registry-keys", func(c *abci.Chain) string {
 		return fmt.Sprint(len(c.App.CustomGovKeeper.AllDataRegistry(ctxOf(c))))
 	})
